@@ -11,15 +11,18 @@ NODE_INVS = ['OneProposalPerView', 'OneResponsePerView', 'OneCommit', 'OnePreCom
 INV_PROP = {'OneProposalPerView': 'C03', 'OneResponsePerView': 'C03', 'OneCommit': 'C03', 'OnePreCommit': 'C03', 'CommitLock': 'C03',
             'CommitEvidence': 'C04', 'ViewEvidence': 'C04', 'ResponseEvidence': 'C04', 'OneDecision': 'C05', 'PreBlockOnce': 'C07',
             'PhaseOrder': 'C07', 'AmevOff': 'C07', 'TimerOK': 'C10', 'Silent': 'C13', 'HeldTxsBelong': 'C11', 'PrimaryOK': 'C06',
-            'PreCertificate': 'C02', 'Certificate': 'C02', 'ResetClean': 'C05', 'EarlyUsed': 'C05',
+            'PreCertificate': 'C02', 'Certificate': 'C02', 'CommitNeedsPreCommits': 'C07', 'LockNeedsPreparations': 'C04', 'ResetClean': 'C05', 'EarlyUsed': 'C05',
             'SilentStep': 'C13', 'MinGap': 'C16', 'EmptyAfterMax': 'C16', 'ExactGapWhenOff': 'C16', 'NotLate': 'C16', 'Prompt': 'C16', 'SubscribeOnlyIfOn': 'C16',
             'Answers': 'C12', 'Termination': 'C09', 'ViewBound': 'C09', 'TimersArmed': 'C10',
             'NeverAsks': 'C08', 'View0': 'C08', 'Decides': 'C08', 'TheBlock': 'C08'}
 
+ORD_PROPS = ('CommitLock', 'PreCertificate', 'CommitNeedsPreCommits', 'LockNeedsPreparations')
 ECHO_INVS = ['OneDecision', 'PreBlockOnce', 'PhaseOrder', 'AmevOff', 'TimerOK', 'Silent', 'HeldTxsBelong', 'PrimaryOK', 'ViewEvidence']
 
+MODULE_DEPS = {'MC_NodeCover': ['MC_Node'], 'MC_NodeOrd': ['MC_NodeCover', 'MC_Node']}   # modules a root module EXTENDS (besides DbftNode)
+
 def node_cfg(name, me=1, h=2, maxview=1, amev=False, watch=False, dyn=False, family=('core',), dev=True, weaken=(), invs=None, n=4,
-             emit=False, emitlen=0, props=('CommitLock', 'PreCertificate')):
+             emit=False, emitlen=0, props=('CommitLock', 'PreCertificate'), ord=False):
     invs = NODE_INVS if invs is None else invs
     fam = '{' + ', '.join('"%s"' % f for f in family) + '}'
     wk = '{' + ', '.join('"%s"' % f for f in weaken) + '}'
@@ -27,12 +30,14 @@ def node_cfg(name, me=1, h=2, maxview=1, amev=False, watch=False, dyn=False, fam
     txt = ('SPECIFICATION Spec\nCONSTANTS\n  N = %d\n  Me = %d\n  H = %d\n  MaxView = %d\n  AmevOn = %s\n  WatchFlag = %s\n  DynOn = %s\n'
            '  Family = %s\n  DevEarlyCommitUnverified = %s\n  Weaken = %s\n  Emit = %s\n  EmitLen = %d\n  CoverMod = 1\nCONSTRAINT ViewBound\nVIEW View\n'
            % (n, me, h, maxview, b(amev), b(watch), b(dyn), fam, b(dev), wk, b(emit), emitlen))
+    if ord:
+        txt = txt.replace('SPECIFICATION Spec\n', 'SPECIFICATION SpecOrd\n')
     if invs or emit:
         txt += 'INVARIANTS ' + ' '.join(list(invs) + (['EmitBehaviour'] if emit else [])) + '\n'
     if props and not emit:
         txt += 'PROPERTY ' + ' '.join(props) + '\n'
     txt += 'CHECK_DEADLOCK FALSE\n'
-    return dict(name=name, module='MC_Node', cfg=txt)
+    return dict(name=name, module='MC_NodeOrd' if ord else 'MC_Node', cfg=txt)
 
 NODE_FAMILIES = {
     # small, run fresh by every check of a node-local property
@@ -67,6 +72,14 @@ NODE_FAMILIES = {
         node_cfg('flip-primary-v0', me=2, maxview=0, family=('core', 'flip'), props=('CommitLock', 'PreCertificate', 'SilentStep')),
         node_cfg('flip-amev-v0', me=1, amev=True, maxview=0, family=('core', 'flip'), props=('CommitLock', 'PreCertificate', 'SilentStep')),
         node_cfg('flip-v1', me=1, maxview=1, family=('core', 'flip'), props=('CommitLock', 'PreCertificate', 'SilentStep')),
+    ],
+    # sender-order reduction (spec/MC_NodeOrd.tla): two and three views, the anti-MEV phase across a view change - small enough for
+    # exhaustive design checks and state covers
+    'ord': [
+        node_cfg('ord-core', me=1, ord=True, props=ORD_PROPS),
+        node_cfg('ord-amev', me=1, amev=True, ord=True, props=ORD_PROPS),
+        node_cfg('ord-amev-backup', me=3, amev=True, ord=True, props=ORD_PROPS),
+        node_cfg('ord-core-v2', me=1, maxview=2, ord=True, props=ORD_PROPS),
     ],
     'cover': [
         node_cfg('amev-v0s', me=1, amev=True, maxview=0),
@@ -124,6 +137,10 @@ LIVE_FAMILIES = [live_cfg('live-silent-primary', silent=(2,)), live_cfg('live-si
                  live_cfg('live-silent-primary-cutany', silent=(2,), cutsets=((1,), (3,), (0,)), heal=1, maxview=4),
                  live_cfg('live-silent-primary-restart', silent=(2,), restart=(1,), maxview=4),
                  live_cfg('live-cut-backup', silent=(), cutsets=((1,),), heal=1),
+                 # a validator crashes in the middle of a round (payloads on their way to it are lost) and restarts with empty state
+                 live_cfg('live-silent-primary-crash1', silent=(2,), restart=(1,), maxview=4, crash=True),
+                 live_cfg('live-silent-primary-crash0', silent=(2,), restart=(0,), maxview=4, crash=True),
+                 live_cfg('live-silent-primary-crash3', silent=(2,), restart=(3,), maxview=4, crash=True),
 
                  ]
 
@@ -138,7 +155,7 @@ TX_FAMILIES = [tx_cfg('tx-backup0', me=0), tx_cfg('tx-backup3', me=3), tx_cfg('t
 
 def run_tlc(item, wd, workers=4, cap=1800, simulate=None, cover=0):
     sd = os.path.join(wd, 'mc-' + item['name']); os.makedirs(sd, exist_ok=True)
-    for f in ['DbftNode.tla', item['module'] + '.tla'] + (['MC_Node.tla'] if item['module'] == 'MC_NodeCover' else []):
+    for f in ['DbftNode.tla', item['module'] + '.tla'] + [m + '.tla' for m in MODULE_DEPS.get(item['module'], [])]:
         shutil.copy(os.path.join(vlib.VERIF, 'spec', f), sd)
     cfg = item['cfg'] if (simulate and not simulate.get('dump')) else item['cfg'].replace('Emit = FALSE', 'Emit = TRUE')   # carry the schedule (hidden by VIEW)
     if item['module'] == 'MC_Live' and not cover:
@@ -146,7 +163,7 @@ def run_tlc(item, wd, workers=4, cap=1800, simulate=None, cover=0):
     if cover and item['module'] == 'MC_Live':
         cfg = cfg.replace('PROPERTY Termination\n', 'VIEW View\n')     # the schedule must not split states; no temporal property in this run
     if cover:   # print the stored schedule of every state (EmitCover)
-        inv = 'EmitCover2' if item['module'] == 'MC_NodeCover' else 'EmitCover'
+        inv = 'EmitCover2' if item['module'] in ('MC_NodeCover', 'MC_NodeOrd') else 'EmitCover'
         cfg = cfg.replace('INVARIANTS ', 'INVARIANTS %s ' % inv) if 'INVARIANTS ' in cfg else cfg + 'INVARIANTS %s\n' % inv
         cfg = cfg.replace('CoverMod = 1', 'CoverMod = %d' % cover)
     open(os.path.join(sd, 'mc.cfg'), 'w').write(cfg)
@@ -349,7 +366,7 @@ def item_key(item, extra=''):
     module texts and the configuration: they are stored under this key (committed in generated/, else .cache/generated/)."""
     import hashlib
     h = hashlib.sha256()
-    for f in ['DbftNode.tla', item['module'] + '.tla'] + (['MC_Node.tla'] if item['module'] == 'MC_NodeCover' else []):
+    for f in ['DbftNode.tla', item['module'] + '.tla'] + [m + '.tla' for m in MODULE_DEPS.get(item['module'], [])]:
         h.update(open(os.path.join(vlib.VERIF, 'spec', f), 'rb').read())
     h.update(item['cfg'].encode()); h.update(extra.encode())
     if item.get('root'):
@@ -420,7 +437,7 @@ def design(tier, wd, vh=None, names=None, module='MC_Node'):
     elif module == 'MC_Tx':
         items = [('fresh', i) for i in TX_FAMILIES]
     else:
-        items = [('fresh', i) for i in NODE_FAMILIES['quick']] + [('cached', i) for i in NODE_FAMILIES['cached'] + NODE_FAMILIES['echo'] + NODE_FAMILIES['flip']]
+        items = [('fresh', i) for i in NODE_FAMILIES['quick']] + [('cached', i) for i in NODE_FAMILIES['cached'] + NODE_FAMILIES['echo'] + NODE_FAMILIES['flip'] + NODE_FAMILIES['ord']]
         if tier != 'quick':
             items += [('cached', i) for i in NODE_FAMILIES['thorough']]
     if names:
@@ -434,7 +451,7 @@ def design(tier, wd, vh=None, names=None, module='MC_Node'):
             return r
         regen = os.environ.get('VERIF_REGEN') == '1'
         r = run_tlc(it, wd, workers=(8 if regen else 4) if kind == 'fresh' else 8,
-                    cap=(300 if regen else 120) if kind == 'fresh' else (900 if regen or tier != 'quick' else 420))
+                    cap=(1800 if regen else 120) if kind == 'fresh' else (900 if regen or tier != 'quick' else 420))
         r.pop('stdout', None); r['from_cache'] = False; r['spec_hash'] = sh
         r['invariants'] = [l for l in it['cfg'].splitlines() if l.startswith('INVARIANTS') or l.startswith('PROPERTY')]
         # a run that hits its time cap is a bounded breadth-first search (reported as such: completed = false)
